@@ -39,7 +39,8 @@ def rand_req(rng, tags, multi=True, invalid=0.15, budget=None, class_level=False
         if k < 0.5:
             return {"op": "gs", "path": p}
         if k < 0.9 and ty in lc.SIZES:
-            n = lc.SIZES[ty] * ln + (rng.choice([-1, 1]) if bad else 0)
+            # a wrong size: a byte more or less, or a whole element more or less
+            n = lc.SIZES[ty] * ln + (rng.choice([-1, 1, -lc.SIZES[ty], lc.SIZES[ty], -lc.SIZES[ty] * (ln - 1)]) if bad else 0)
             return {"op": "ss", "path": p, "data": [rng.randrange(256) for _ in range(max(n, 1))]}
         return {"op": "ga", "path": [["c", c], ["i", i]]}
     idx = rng.choice([0, 0, ln - 1, rng.randrange(ln)])
